@@ -1,3 +1,5 @@
 import ArroyProofs.AuditCmd
 import ArroyProofs.Properties.C15
+import ArroyProofs.Properties.C15Build
+import ArroyProofs.Properties.Unconditional
 #audit Arroy.C15
